@@ -24,7 +24,7 @@ REACH = {"_format_decimal": "_format_decimal", "_format_currency": "_format_curr
          "Table.set_cell_formatting": "set_cell_formatting"}
 ASSUMPTIONS = ["at exact ties either neighbour is accepted (no rounding mode is fixed by the statement)",
                "NegativeNumberStyle.RED is documented as 'no minus sign': only the magnitude is compared there",
-               "non-integer or out-of-range ratings and non-integer values under a number base are outside the documented domain and not generated",
+               "non-integer or out-of-range ratings are outside the documented domain and not generated; a non-integer under a number base must show the value rounded to an integer (either neighbour at a tie)",
                "values have <= 15 significant digits and |x| < 1e15"]
 NEG = ["MINUS", "RED", "PARENTHESES", "RED_AND_PARENTHESES"]
 FRACS = ["THREE", "TWO", "ONE", "HALVES", "QUARTERS", "EIGTHS", "SIXTEENTHS", "TENTHS", "HUNDRETHS"]
@@ -122,6 +122,10 @@ def rand_format(rng, currencies, idx):
             kw["base_use_minus_sign"] = False
         v = float(rng.choice([0, 1, -1, 255, -255, 2 ** 31 - 1, -2 ** 31, 2 ** 31, -(2 ** 31) - 1, 2 ** 32, -(2 ** 32), 2 ** 40, -2 ** 40, rng.randint(-10 ** 9, 10 ** 9), rng.randint(-10 ** 13, 10 ** 13),
                               rng.randint(-40, 40)]))
+        if rng.random() < .3:
+            # non-integers are rounded to the nearest integer by the format
+            v = rng.choice([0.75, -0.75, 0.25, -0.25, 0.5, 1.5, 2.5, -0.5, 0.49, 0.51, 254.6, -254.6, 1e-9, 0.999999, 35.5, 4294967295.5,
+                            rng.randint(-10 ** 6, 10 ** 6) + rng.choice([0.1, 0.5, 0.9, 0.49, 0.51])])
     elif t == "fraction":
         kw["fraction_accuracy"] = rng.choice(FRACS)
         c2 = rng.random()
